@@ -15,6 +15,7 @@ raises Unjudgeable(reason).
 STATEMENT_OPS = ('execute', 'executemany', 'executescript')
 OPEN_WITH_CONNECTION = ('open_read', 'open_write', 'after_commit')
 OPEN_STATES = OPEN_WITH_CONNECTION + ('open_dirty',)
+THREAD_STATES = ('thread_open_write', 'threads_queued_write')
 
 
 class Unjudgeable(Exception):
@@ -100,8 +101,11 @@ def judge_sqlite(case, obs):
     if state == 'open_dirty' and (not case['child'] or case['child'][0] != 'rollback'):
         raise Unjudgeable('precondition: with unflushed objects in the inherited cache the child must discard it first')
 
-    if state == 'thread_open_write' and (case['order'] != 'child_first' or case['parent_after'] not in ([], ['read'])):
-        raise Unjudgeable('precondition: thread_open_write histories only have child_first order and a read-only parent script')
+    if state in THREAD_STATES and (case['order'] != 'child_first' or case['parent_after'] not in ([], ['read'])):
+        raise Unjudgeable('precondition: thread-state histories only have child_first order and a read-only parent script')
+    mem = case.get('db', 'file') != 'file'
+    if mem and (state in THREAD_STATES or state in ('gen_suspended', 'open_dirty')):
+        raise Unjudgeable('precondition: in-memory databases are only combined with the plain parent states')
 
     gen_ops = ('gen_next', 'gen_write')
     if state != 'gen_suspended':
@@ -166,11 +170,11 @@ def judge_sqlite(case, obs):
     committed = ['p0']
     if state == 'after_commit':
         committed.append('pc')
-    model = {'committed': committed, 'parent_open': state in OPEN_STATES or state == 'thread_open_write',
+    model = {'committed': committed, 'parent_open': state in OPEN_STATES or state in THREAD_STATES,
              'pending': ['pu'] if state in ('open_write', 'open_dirty') else []}
     child_in_inherited = state in OPEN_STATES
     stats_extra = {'faults': 0}
-    lock_at_fork = state in ('open_write', 'thread_open_write')
+    lock_at_fork = state == 'open_write' or state in THREAD_STATES
 
     def child_ops(records, who, fresh):
         # fresh: the process is not inside a session cache inherited from the parent (pony caches query results per
@@ -179,6 +183,16 @@ def judge_sqlite(case, obs):
             op = r['op']
             if op == 'fork':
                 child_ops(r['sub']['records'], r['sub_who'], fresh)
+                continue
+            if mem:
+                # an in-memory database is private to the process (':memory:': the child's own connection is a new empty
+                # database; shared cache: a copy as of the fork): nothing the child does is visible to the parent and its
+                # statements may find no table or a table lock -- only WHERE they are issued is judged (above)
+                msg = ((r.get('exc') or {}).get('msg') or '')
+                tolerated = (r['ok'] or 'no such table' in msg or 'locked' in msg or 'injected' in msg
+                             or (r.get('exc') or {}).get('type') == 'TransactionError')
+                if not tolerated:
+                    findings.append(('child-op-failed', '%s %s on its in-memory database failed: %r' % (who, op, r['exc'])))
                 continue
             # a writer may be refused as locked while the parent's session is open, or (grandchild) while the forking
             # child lives inside the inherited, never ending session and may hold a transaction of its own
@@ -314,16 +328,22 @@ def judge_sqlite(case, obs):
     else:
         parent_ops(obs['parent_after'])
         child_ops(child_records, 'C', not child_in_inherited)
-    if state == 'thread_open_write':
+    if state in THREAD_STATES:
         model['parent_open'] = False
-        trec = obs.get('thread') or {}
-        if trec.get('ok'):
-            model['committed'].append('tu')
-        else:
-            findings.append(('parent-broken', "the parent's other thread could not commit its open transaction: %r" % (trec.get('exc'),)))
+        for key, label in (('thread', 'tu'), ('thread_b', 'tb')):
+            if key == 'thread_b' and state != 'threads_queued_write':
+                continue
+            trec = obs.get(key) or {}
+            if trec.get('ok'):
+                model['committed'].append(label)
+            else:
+                findings.append(('parent-broken', "the parent's other thread could not commit its transaction %r: %r"
+                                 % (label, trec.get('exc'))))
     parent_ops(obs['final'])
 
-    if 'file_error' in obs:
+    if obs.get('no_file'):
+        pass
+    elif 'file_error' in obs:
         findings.append(('parent-broken', 'database file unreadable afterwards: %s' % obs['file_error']))
     else:
         if obs.get('integrity') != 'ok':
